@@ -16,6 +16,12 @@ Tie of the generated effect table (coq/gen/Gen_c20.v, theorems in coq/props/C20.
    call is preceded by calls that used the same sequences with other arguments - per-sequence state kept by an earlier
    call (a memoised helper whose result was modified in place, a reused index) then shows up as a difference from the
    fresh-process result.
+ * COVERAGE AUDIT (`audit_templates`, au_*): the container kinds that stay aliased after each callable's own conversion
+   (float64 / integer ndarrays, Series views, sets, tables with missing cells, string indexes), `progress=True`, every
+   **kwargs pass-through, `ax=` given, pairs of options, sizes 1 / 2 / 1001, 300 residues, one object as two arguments -
+   and OBJECTS THAT LIVE ACROSS CALLS (`au_live_*` against `au_ref_*`, `judge_live`): one database / metric / caller's
+   container used for many calls (refilled in place in between) must give what objects built for each call give.  Every
+   audit template is followed by a plain template of a callable it uses (audit probes in make_histories).
  * PROCESS-WIDE state outside pyrepseq's modules (`ambient`: NumPy error mode / print options, warnings filters, matplotlib
    rcParams, pandas options, Python's `random`, os.environ, cwd, ...) is part of every snapshot: a call that leaves it
    changed violates the property (later results depend on it).  `edge_templates`: calls that raise LATE (inside the
@@ -366,6 +372,7 @@ def templates():
             t['fig'] = True
     L += edge_templates()
     L += shared_templates()
+    L += audit_templates()
     out = {}
     for t in L:
         assert t['name'] not in out, t['name']
@@ -584,6 +591,557 @@ def shared_templates():
     return out
 
 
+# ------------------------------------------------------------------ coverage audit: what the families above never generated
+AA20 = 'ACDEFGHIKLMNPQRSTVWY'
+LONG = ['A' * 300, 'A' * 150 + 'C' + 'A' * 149, 'A' * 299, 'C' + 'A' * 299]      # longer than 127 / 255 residues
+SEQS_V2 = SEQS3 + ['CAWSVGQGYEQYF']          # as long as SEQS: what a reused container is refilled with
+COUNTS_F = [10.0, 4.0, 4.0, 2.0, 1.0, 1.0, 1.0, 7.0, 3.0]
+RING7 = [(i, (i + 1) % 7, 1) for i in range(7)] + [((i + 1) % 7, i, 1) for i in range(7)]
+
+
+def big_seqs(n=1001):
+    """n sequences (duplicates, many 1-edit neighbours, lengths 6..9), the same in every process: crosses the 1000 mark"""
+    import random
+    r = random.Random(20 + n)
+    base = [''.join(r.choice(AA20) for _ in range(r.randint(6, 9))) for _ in range(n // 3)]
+    out = []
+    for _ in range(n):
+        s = r.choice(base)
+        if r.random() < 0.5:
+            p = r.randrange(len(s))
+            s = s[:p] + r.choice(AA20) + s[p + 1:]
+        out.append(s)
+    return out
+
+
+def na_df():
+    """the TCR table with missing cells in the value columns (None and nan) and a string index"""
+    import numpy as np
+    import pandas as pd
+    df = tcr_df()
+    df.loc[[1, 4], 'TRBV'] = None
+    df.loc[[2], 'TRAV'] = np.nan
+    df.loc[[4, 7], 'donor'] = None
+    df.index = pd.Index(list('abcdefghij'))
+    return df
+
+
+def str_df():
+    import pandas as pd
+    return tcr_df().set_index(pd.Index(['r%d' % (9 - i) for i in range(10)]))
+
+
+def vj_df():
+    import pandas as pd
+    return pd.DataFrame(dict(cdr3=['CASF', 'CATF', 'CASW'], v=['TRBV5', 'TRBV5', 'TRBV7'], j=['TRBJ1', 'TRBJ2', 'TRBJ1']))
+
+
+def audit_templates():
+    """Coverage audit (see NOTES.md).  au_*: container kinds / dtypes that stay ALIASED after the callable's own conversion
+    (float64 arrays through np.asarray(dtype=float), ndarrays through ensure_numpy, Series views, built-in sets), missing
+    cells, string / shifted indexes, every **kwargs pass-through, `progress=True`, `ax=` given, the remaining option values and
+    combinations of two options, sizes 1 / 2 / 1001 and sequences of 300 residues, the same object passed twice.
+    au_live_* / au_ref_*: OBJECTS THAT LIVE ACROSS CALLS - one database / metric object used for several lookups with other
+    options (and two of them alive at once), one caller's container used for several calls and REFILLED IN PLACE between
+    them; the reference template makes the same calls on objects built for each call, and both must agree (`same_as`)."""
+    import numpy as np
+    import pandas as pd
+    import pyrepseq as prs
+    import pyrepseq.nn as nn
+    import pyrepseq.util as util
+    import pyrepseq.plotting as pp
+    import pyrepseq.metric.tcr_metric as tm
+    import matplotlib.pyplot as plt
+    from rapidfuzz.distance import Levenshtein as RF
+    shifted = lambda s: pd.Series(list(s), index=np.arange(len(s)) + 3)
+    stridx = lambda s: pd.Series(list(s), index=['k%d' % (len(s) - i) for i in range(len(s))])
+    objarr = lambda s: np.array(list(s), dtype=object)
+    L = []
+    A = lambda name, entries, make, **k: L.append(T('au_' + name, entries, make, **k))
+
+    # ---- search: containers, option values, option pairs, sizes
+    for nm, f, ent, kw in [('kdtree', prs.kdtree, 'nn.kdtree', dict(max_edits=2)), ('symdel', prs.symdel, 'nn.symdel', dict(max_edits=2)),
+                           ('hash', prs.hash_based, 'nn.hash_based', dict(max_edits=1)), ('nn', prs.nearest_neighbor, 'nn.nearest_neighbor', dict(max_edits=1))]:
+        for cn, conv in [('objarr', objarr), ('tuple', tuple), ('stridx', stridx), ('shifted', shifted), ('ndarray', np.array)]:
+            A('%s_%s' % (nm, cn), [ent], lambda f=f, conv=conv, kw=kw: (f, [conv(SEQS)], dict(kw)))
+        A(nm + '_one', [ent], lambda f=f: (f, [['CASSLGQAYEQYF']], {}))
+        A(nm + '_two', [ent], lambda f=f: (f, [np.array(['CASSLGQAYEQYF', 'CASSLGQAYEQYW'])], dict(output_type='ndarray')))
+        A(nm + '_1001', [ent], lambda f=f: (f, [big_seqs()], dict(max_edits=1)))
+        A(nm + '_1001_arr', [ent], lambda f=f: (f, [np.array(big_seqs())], dict(max_edits=1, custom_distance='hamming')))
+        A(nm + '_long', [ent], lambda f=f: (f, [list(LONG)], dict(max_edits=1, output_type='coo_matrix')))
+        A(nm + '_ignored_opts', [ent], lambda f=f: (f, [list(SEQS)], dict(max_edits=1, max_returns=2, n_cpu=2)))
+        A(nm + '_custom_ndarray_out', [ent], lambda f=f, kw=kw: (f, [shifted(SEQS)], dict(kw, custom_distance=lev3, max_custom_distance=6.0, output_type='ndarray')))
+    L_ = [
+        ('kdtree_hamming_ncpu2', prs.kdtree, 'nn.kdtree', lambda: ([list(SEQS)], dict(max_edits=2, custom_distance='hamming', n_cpu=2))),
+        ('kdtree_top1_ncpu2', prs.kdtree, 'nn.kdtree', lambda: ([np.array(SEQS)], dict(max_edits=2, max_returns=1, n_cpu=2))),
+        ('kdtree_custom_ncpu2', prs.kdtree, 'nn.kdtree', lambda: ([list(SEQS)], dict(max_edits=2, custom_distance=lev3, max_custom_distance=3, n_cpu=2))),
+        ('kdtree_compress3_hamming', prs.kdtree, 'nn.kdtree', lambda: ([shifted(SEQS)], dict(max_edits=1, custom_distance='hamming', compression=3, output_type='ndarray'))),
+        ('kdtree_top2_custom', prs.kdtree, 'nn.kdtree', lambda: ([list(SEQS)], dict(max_edits=2, max_returns=2, custom_distance=lev3, max_custom_distance=6))),
+        ('kdtree_1001_ncpu2', prs.kdtree, 'nn.kdtree', lambda: ([big_seqs()], dict(max_edits=1, n_cpu=2))),
+        ('kdtree_alphabet_raises', prs.kdtree, 'nn.kdtree', lambda: ([['CASSF', 'CASXF', 'CASSW']], dict(max_edits=1))),
+        ('kdtree_ncpu4_four_seqs', prs.kdtree, 'nn.kdtree', lambda: ([tuple(SEQS2)], dict(max_edits=2, n_cpu=4, output_type='coo_matrix'))),
+        ('kdtree_ncpu3_1001_top1', prs.kdtree, 'nn.kdtree', lambda: ([np.array(big_seqs())], dict(max_edits=1, n_cpu=3, max_returns=1))),
+        ('kdtree_distance_spelling_raises', prs.kdtree, 'nn.kdtree', lambda: ([list(SEQS)], dict(max_edits=1, custom_distance='Hamming'))),
+        ('symdel_two_progress', prs.symdel, 'nn.symdel', lambda: ([list(SEQS)], dict(max_edits=1, seqs2=list(SEQS2), progress=True))),
+        ('symdel_two_progress_arr', prs.symdel, 'nn.symdel', lambda: ([np.array(SEQS)], dict(max_edits=2, seqs2=np.array(SEQS2), progress=True, custom_distance='hamming'))),
+        ('symdel_progress_alone', prs.symdel, 'nn.symdel', lambda: ([list(SEQS)], dict(max_edits=1, progress=True))),
+        ('symdel_unicode', prs.symdel, 'nn.symdel', lambda: ([['caß', 'cas', 'ca', 'xyz', 'caß']], dict(max_edits=1))),
+        ('symdel_two_1001', prs.symdel, 'nn.symdel', lambda: ([big_seqs()], dict(max_edits=1, seqs2=list(SEQS) + big_seqs()[:40]))),
+        ('symdel_two_stridx', prs.symdel, 'nn.symdel', lambda: ([stridx(SEQS)], dict(max_edits=1, seqs2=stridx(SEQS2), output_type='coo_matrix'))),
+        ('hash_progress', prs.hash_based, 'nn.hash_based', lambda: ([list(SEQS)], dict(max_edits=1, progress=True))),
+        ('hash_progress_arr_k2', prs.hash_based, 'nn.hash_based', lambda: ([np.array(SHORT)], dict(max_edits=2, progress=True, custom_distance='hamming'))),
+        ('nn_positional', prs.nearest_neighbor, 'nn.nearest_neighbor', lambda: ([list(SEQS), 2, None, 1, 'hamming', float('inf'), 'ndarray', tuple(SEQS2)], {})),
+    ]
+    for nm, f, ent, mk in L_:
+        A(nm, [ent], lambda f=f, mk=mk: (f,) + mk())
+    # the same object as both collections
+    A('symdel_same_object', ['nn.symdel'], lambda: (lambda s: prs.symdel(s, max_edits=1, seqs2=s), [list(SEQS)], {}))
+    A('nn_same_object_arr', ['nn.nearest_neighbor'], lambda: (lambda s: prs.nearest_neighbor(s, max_edits=2, seqs2=s, output_type='coo_matrix'), [np.array(SEQS)], {}))
+    A('cdist_same_object', ['distance.cdist'], lambda: (lambda s: prs.cdist(s, s), [list(SEQS2)], {}))
+    A('pc_same_object', ['stats.pc'], lambda: (lambda s: prs.pc(s, s), [np.array(SEQS)], {}))
+    A('pcDelta_same_object', ['distance.pcDelta'], lambda: (lambda s: prs.pcDelta(s, s, bins=[0, 1, 2, 30]), [shifted(SEQS)], {}))
+    A('jaccard_same_set', ['stats.jaccard_index'], lambda: (lambda s: prs.jaccard_index(s, s), [set(SEQS)], {}))
+    A('lev_cdist_same_object', ['metric.levenshtein.Levenshtein.calc_cdist_matrix'], lambda: (lambda s: prs.metric.Levenshtein().calc_cdist_matrix(s, s), [np.array(SEQS)], {}))
+    A('cdr3lev_cdist_same_frame', ['metric.tcr_metric.tcr_levenshtein.TcrLevenshtein.calc_cdist_matrix'], lambda: (lambda d: tm.CdrLevenshtein().calc_cdist_matrix(d, d), [str_df()], {}))
+    A('pc_joint_same_frame', ['stats.pc_joint'], lambda: (lambda d: prs.pc_joint(d, ['TRBV', 'TRAV'], d), [na_df()], {}))
+    A('multimerge_same_frame', ['io.multimerge'], lambda: (lambda d: prs.multimerge([d, d, d], 'index', suffixes=('a', 'b', 'c')), [tcr_df()[['clone_count', 'group']]], {}))
+    # databases: the other options of lookup
+    A('lookupdb_k2_hamming', ['nn.LookupDB.__init__', 'nn.LookupDB.lookup'], lambda: (lambda s, q: nn.LookupDB(s).lookup(q, max_edits=2, custom_distance='hamming', output_type='ndarray'), [np.array(SHORT), tuple(SHORT[:3])], {}))
+    A('lookupdb_custom_coo_progress', ['nn.LookupDB.__init__', 'nn.LookupDB.lookup'], lambda: (lambda s, q: nn.LookupDB(s).lookup(q, max_edits=1, custom_distance=lev3, max_custom_distance=3, output_type='coo_matrix', progress=True), [list(SEQS), shifted(SEQS2)], {}))
+    A('symdeldb_progress_ndarray', ['nn.SymdelDB.__init__', 'nn.SymdelDB.lookup'], lambda: (lambda s, q: nn.SymdelDB(s, 1).lookup(q, progress=True, output_type='ndarray'), [shifted(SEQS), np.array(SEQS2)], {}))
+    A('symdeldb_custom', ['nn.SymdelDB.__init__', 'nn.SymdelDB.lookup'], lambda: (lambda s, q: nn.SymdelDB(s, 2).lookup(q, custom_distance=lev3, max_custom_distance=3.0, output_type='coo_matrix'), [tuple(SEQS), list(SEQS3)], {}))
+    # TCRdist search: **kwargs go on to nearest_neighbor; index kinds; empty result
+    A('tcrdist_kwargs_hamming', ['nn.nearest_neighbor_tcrdist'], lambda: (prs.nearest_neighbor_tcrdist, [tcr_df()], dict(chain='beta', max_edits=2, max_tcrdist=90, custom_distance='hamming')))
+    A('tcrdist_kwargs_ignored', ['nn.nearest_neighbor_tcrdist'], lambda: (prs.nearest_neighbor_tcrdist, [tcr_df()], dict(chain='alpha', max_edits=1, max_tcrdist=60, max_returns=3, n_cpu=2)))
+    A('tcrdist_stridx_both', ['nn.nearest_neighbor_tcrdist'], lambda: (prs.nearest_neighbor_tcrdist, [str_df()], dict(chain='both', max_edits=2, max_tcrdist=150)))
+    A('tcrdist_trimmed_kwargs', ['nn.nearest_neighbor_tcrdist'], lambda: (prs.nearest_neighbor_tcrdist, [tcr_df()], dict(chain='beta', max_edits=1, max_tcrdist=80, tcrdist_kwargs=dict(ntrim=2, ctrim=3))))
+    A('tcrdist_no_neighbours', ['nn.nearest_neighbor_tcrdist'], lambda: (prs.nearest_neighbor_tcrdist, [tcr_df().iloc[[0, 6]]], dict(chain='beta', max_edits=1)))
+    # near-miss spelling of the chain: passes the search and fails late, at the V-gene table
+    A('tcrdist_chain_spelling_raises', ['nn.nearest_neighbor_tcrdist'], lambda: (prs.nearest_neighbor_tcrdist, [tcr_df()], dict(chain='Beta', max_edits=2, max_tcrdist=60)))
+    A('tcrdist_kwargs_ndarray', ['nn.nearest_neighbor_tcrdist'], lambda: (prs.nearest_neighbor_tcrdist, [tcr_df()], dict(chain='beta', output_type='ndarray')))
+
+    # ---- statistics: arrays that np.asarray / ensure_numpy hand on WITHOUT a copy, Series views, sets, missing cells
+    A('pc_n_arr', ['stats.pc_n'], lambda: (prs.pc_n, [np.array(COUNTS)], {}))
+    A('pc_n_float_arr', ['stats.pc_n'], lambda: (prs.pc_n, [np.array(COUNTS_F)], {}))
+    A('pc_n_stridx', ['stats.pc_n'], lambda: (prs.pc_n, [stridx(COUNTS)], {}))
+    A('varpc_n_float_arr', ['stats.varpc_n'], lambda: (prs.varpc_n, [np.array(COUNTS_F)], {}))
+    A('varpc_n_float_series', ['stats.varpc_n'], lambda: (prs.varpc_n, [stridx(COUNTS_F)], {}))
+    A('varpc_n_list', ['stats.varpc_n'], lambda: (prs.varpc_n, [list(COUNTS)], {}))
+    A('stdpc_n_float_arr', ['stats.stdpc_n'], lambda: (prs.stdpc_n, [np.array(COUNTS_F)], {}))
+    A('stdpc_n_series', ['stats.stdpc_n'], lambda: (prs.stdpc_n, [shifted(COUNTS)], {}))
+    A('stdpc_arr', ['stats.stdpc'], lambda: (prs.stdpc, [np.array(SEQS + SEQS2)], {}))
+    A('stdpc_objarr', ['stats.stdpc'], lambda: (prs.stdpc, [objarr(SEQS + SEQS2)], {}))
+    A('stdpc_series', ['stats.stdpc'], lambda: (prs.stdpc, [stridx(SEQS + SEQS2)], {}))
+    A('stdpc_tuple', ['stats.stdpc'], lambda: (prs.stdpc, [tuple(SEQS + SEQS2)], {}))
+    A('pc_arr', ['stats.pc'], lambda: (prs.pc, [np.array(SEQS)], {}))
+    A('pc_objarr', ['stats.pc'], lambda: (prs.pc, [objarr(SEQS), objarr(SEQS2)], {}))
+    A('pc_stridx', ['stats.pc'], lambda: (prs.pc, [stridx(SEQS), shifted(SEQS2)], {}))
+    A('pc_int_arr', ['stats.pc'], lambda: (prs.pc, [np.array([5, 3, 5, 1, 3, 5])], {}))
+    A('pc_tuple_series', ['stats.pc'], lambda: (prs.pc, [(shifted(ALPHA), stridx(SEQS))], {}))
+    A('pc_frame_two_stridx', ['stats.pc'], lambda: (prs.pc, [na_df()[['TRBV', 'TRAV']], tcr_df()[['TRBV', 'TRAV']]], {}))
+    A('pc_1001', ['stats.pc'], lambda: (prs.pc, [np.array(big_seqs())], {}))
+    for nm, f, ent in [('chao1', prs.chao1, 'stats.chao1'), ('var_chao1', prs.var_chao1, 'stats.var_chao1')]:
+        for cn, conv in [('tuple', tuple), ('arr', np.array), ('series', pd.Series), ('float_arr', lambda c: np.array(c, dtype=float))]:
+            A('%s_%s' % (nm, cn), [ent], lambda f=f, conv=conv: (f, [conv([4, 2, 1, 1])], {}))
+    for nm, f, ent in [('chao2', prs.chao2, 'stats.chao2'), ('var_chao2', prs.var_chao2, 'stats.var_chao2')]:
+        for cn, conv in [('tuple', tuple), ('arr', np.array), ('series', pd.Series), ('list', list)]:
+            A('%s_%s' % (nm, cn), [ent], lambda f=f, conv=conv: (f, [conv([4, 2, 1, 1]), 6], {}))
+    for nm, f, ent in [('jaccard', prs.jaccard_index, 'stats.jaccard_index'), ('overlap', prs.overlap, 'stats.overlap'),
+                       ('overlap_coefficient', prs.overlap_coefficient, 'stats.overlap_coefficient')]:
+        A(nm + '_sets', [ent], lambda f=f: (f, [set(SEQS), set(SEQS2)], {}))
+        A(nm + '_set_frozenset', [ent], lambda f=f: (f, [frozenset(SEQS3), set(SEQS)], {}))
+        A(nm + '_series_na', [ent], lambda f=f: (f, [stridx(SEQS[:4] + [None, np.nan]), shifted([None] + SEQS2)], {}))
+        A(nm + '_arrays', [ent], lambda f=f: (f, [np.array(SEQS), objarr(SEQS2)], {}))
+        A(nm + '_dict_keys', [ent], lambda f=f: (f, [dict.fromkeys(SEQS, 1), tuple(SEQS3)], {}))
+    A('subsample_series', ['stats.subsample'], lambda: (prs.subsample, [stridx(COUNTS), 6], {}), random=True)
+    A('subsample_tuple_float_n', ['stats.subsample'], lambda: (prs.subsample, [tuple(COUNTS), 7.0], {}), random=True)
+    A('powerlaw_sample_positional', ['stats.powerlaw_sample'], lambda: (prs.powerlaw_sample, [7, 2, 3.0], {}), random=True)
+    for m in ('exact', 'simple', 'continuitycorrection'):
+        A('mle_%s_float_arr' % m, ['stats.powerlaw_mle_alpha'], lambda m=m: (prs.powerlaw_mle_alpha, [np.array(COUNTS_F)], dict(cmin=2.0, method=m)))
+        A('mle_%s_stridx' % m, ['stats.powerlaw_mle_alpha'], lambda m=m: (prs.powerlaw_mle_alpha, [stridx(COUNTS_F)], dict(cmin=1, method=m)))
+    A('mle_exact_options', ['stats.powerlaw_mle_alpha'], lambda: (prs.powerlaw_mle_alpha, [tuple(COUNTS)], dict(bounds=(1.1, 8.0), options=dict(xatol=1e-3, maxiter=200))))
+    # tables with missing cells in the value columns, string index; `by` / `on` as lists
+    A('pc_joint_na', ['stats.pc_joint'], lambda: (prs.pc_joint, [na_df(), ['TRBV', 'TRAV']], {}))
+    A('pc_joint_two_na', ['stats.pc_joint'], lambda: (prs.pc_joint, [na_df(), ['TRBV', 'donor'], na_df().iloc[::-1]], dict(gap_token='')))
+    A('stdpc_joint_na', ['stats.stdpc_joint'], lambda: (prs.stdpc_joint, [na_df(), ['TRBV', 'TRAV']], dict(gap_token='+')))
+    A('pc_grouped_cross_na', ['stats.pc_grouped_cross'], lambda: (prs.pc_grouped_cross, [na_df(), 'group', ['TRBV', 'TRAV']], {}))
+    A('pc_grouped_cross_by_list', ['stats.pc_grouped_cross'], lambda: (prs.pc_grouped_cross, [tcr_df(), ['group', 'donor'], 'TRBV'], {}))
+    A('pc_grouped_cross_na_single_raises', ['stats.pc_grouped_cross'], lambda: (prs.pc_grouped_cross, [na_df(), 'group', 'TRBV'], {}))
+    A('pc_conditional_na', ['stats.pc_conditional'], lambda: (prs.pc_conditional, [na_df(), 'group', ['TRBV', 'TRAV']], {}))
+    A('pc_conditional_by2', ['stats.pc_conditional'], lambda: (prs.pc_conditional, [tcr_df(), ['group', 'donor'], 'TRBV'], {}))
+    A('pc_conditional_w_series', ['stats.pc_conditional'], lambda: (prs.pc_conditional, [tcr_df(), 'group', 'TRBV'], dict(group_weights=pd.Series([1.0, 2.0, 3.0], index=list('xyz')))))
+    A('pc_conditional_w_int_arr', ['stats.pc_conditional'], lambda: (prs.pc_conditional, [str_df(), ['group'], ['TRBV']], dict(group_weights=np.array([1, 2, 3]))))
+    A('pc_conditional_w_tuple', ['stats.pc_conditional'], lambda: (prs.pc_conditional, [tcr_df(), 'group', 'TRBV'], dict(group_weights=(3, 1, 1))))
+    A('renyi2_joint_na', ['entropy.renyi2_entropy'], lambda: (prs.renyi2_entropy, [na_df(), ['TRBV', 'TRAV']], {}))
+    A('renyi2_by_list_nats', ['entropy.renyi2_entropy'], lambda: (prs.renyi2_entropy, [tcr_df(), ['TRBV', 'TRAV']], dict(by=['group'], base=None)))
+    A('renyi2_by2_base10', ['entropy.renyi2_entropy'], lambda: (prs.renyi2_entropy, [str_df(), 'TRBV'], dict(by=['group', 'donor'], base=10)))
+    A('renyi2_by_w_series', ['entropy.renyi2_entropy'], lambda: (prs.renyi2_entropy, [tcr_df(), 'TRBV'], dict(by='group', base=math.e, group_weights=pd.Series([0.5, 0.25, 0.25]))))
+    A('renyi2_kwargs_unused', ['entropy.renyi2_entropy'], lambda: (prs.renyi2_entropy, [tcr_df(), 'TRBV'], dict(group_weights=[1, 2, 3])))
+    A('stdrenyi2_single', ['entropy.stdrenyi2_entropy'], lambda: (prs.stdrenyi2_entropy, [tcr_df(), 'TRBV'], dict(base=10)))
+    A('stdrenyi2_gap_token_nats', ['entropy.stdrenyi2_entropy'], lambda: (prs.stdrenyi2_entropy, [na_df(), ['TRBV', 'group']], dict(base=None, gap_token='|')))
+    A('stdrenyi2_base_raises', ['entropy.stdrenyi2_entropy'], lambda: (prs.stdrenyi2_entropy, [tcr_df(), 'TRBV'], dict(base=0)))
+
+    # ---- distances
+    A('pdist_kwargs', ['distance.pdist'], lambda: (prs.pdist, [list(SEQS)], dict(metric=RF.distance, dtype=np.uint16, weights=(1, 2, 3))))
+    A('cdist_kwargs', ['distance.cdist'], lambda: (prs.cdist, [shifted(SEQS), tuple(SEQS2)], dict(metric=RF.distance, score_cutoff=3)))
+    A('pdist_generator', ['distance.pdist'], lambda: (lambda s: prs.pdist(x for x in s), [list(SEQS2)], {}))
+    A('cdist_generators', ['distance.cdist'], lambda: (lambda s, t: prs.cdist(iter(s), (x for x in t), dtype=np.int64), [list(SEQS2), list(SEQS3)], {}))
+    A('pdist_long', ['distance.pdist'], lambda: (prs.pdist, [list(LONG)], dict(dtype=np.uint16)))
+    A('pdist_objarr_stridx', ['distance.pdist'], lambda: (lambda a, b: [prs.pdist(a), prs.pdist(b, dtype=float)], [objarr(SEQS2), stridx(SEQS3)], {}))
+    A('pdist_300', ['distance.pdist'], lambda: (prs.pdist, [np.array(big_seqs()[:300])], {}))
+    A('downsample_series', ['distance.downsample'], lambda: (prs.downsample, [stridx(SEQS), 4], {}), random=True)
+    A('downsample_arr', ['distance.downsample'], lambda: (prs.downsample, [np.array(SEQS), 3], {}), random=True)
+    A('downsample_none', ['distance.downsample'], lambda: (lambda s: [prs.downsample(s), prs.downsample(None, 3), prs.downsample(s, len(s))], [list(SEQS)], {}))
+    A('downsample_frame_stridx', ['distance.downsample'], lambda: (prs.downsample, [na_df(), 4], {}), random=True)
+    A('pcDelta_tuple', ['distance.pcDelta'], lambda: (prs.pcDelta, [(list(ALPHA), list(SEQS))], {}))
+    A('pcDelta_tuple_series_two', ['distance.pcDelta'], lambda: (prs.pcDelta, [(shifted(ALPHA), stridx(SEQS)), (np.array(ALPHA[:4]), tuple(SEQS[:4]))], dict(bins=np.arange(0, 30), normalize=False)))
+    A('pcDelta_bins_int', ['distance.pcDelta'], lambda: (prs.pcDelta, [np.array(SEQS)], dict(bins=5)))
+    A('pcDelta_two_maxseqs', ['distance.pcDelta'], lambda: (prs.pcDelta, [list(SEQS), np.array(SEQS3)], dict(maxseqs=4, bins=[0, 1, 2, 5, 30])), random=True)
+    A('pcDelta_two_pseudocount', ['distance.pcDelta'], lambda: (prs.pcDelta, [stridx(SEQS), list(SEQS2)], dict(pseudocount=0.5, bins=(0, 1, 2, 30))))
+    A('pcDelta_frames_two', ['distance.pcDelta'], lambda: (prs.pcDelta, [str_df(), tcr_df().iloc[2:7]], dict(bins=range(0, 40))))
+    A('pcDelta_frame_metric_two', ['distance.pcDelta'], lambda: (prs.pcDelta, [tcr_df(), str_df().iloc[:4]], dict(metric=tm.BetaCdrLevenshtein(cdr3_weight=2), bins=np.arange(0, 60, 2), normalize=False)))
+    A('pcDelta_frame_maxseqs', ['distance.pcDelta'], lambda: (prs.pcDelta, [str_df()], dict(maxseqs=5, bins=np.arange(0, 40), pseudocount=1.0)), random=True)
+    A('pcDelta_bins0_two_frames', ['distance.pcDelta'], lambda: (prs.pcDelta, [na_df()[['TRBV', 'TRAV']], tcr_df()[['TRBV', 'TRAV']]], dict(bins=0)))
+    A('pcDelta_long', ['distance.pcDelta'], lambda: (prs.pcDelta, [list(LONG)], dict(bins=[0, 1, 2, 400])))
+    A('pcDelta_grouped_by_list_cols', ['distance.pcDelta_grouped'], lambda: (prs.pcDelta_grouped, [str_df(), ['group'], ['CDR3A', 'CDR3B']], dict(bins=[0, 1, 2, 30])))
+    A('pcDelta_grouped_by2_counts', ['distance.pcDelta_grouped'], lambda: (prs.pcDelta_grouped, [tcr_df(), ['group', 'donor'], 'CDR3B'], dict(bins=np.array([0, 1, 2, 30]), normalize=False)))
+    A('pcDelta_grouped_metric_pseudo', ['distance.pcDelta_grouped'], lambda: (prs.pcDelta_grouped, [tcr_df(), 'group', 'CDR3A'], dict(bins=[0, 2, 4, 60], metric=prs.metric.WeightedLevenshtein(1, 1, 2), pseudocount=0.5)))
+    A('pcDelta_grouped_maxseqs', ['distance.pcDelta_grouped'], lambda: (prs.pcDelta_grouped, [tcr_df(), 'group', 'CDR3B'], dict(bins=[0, 1, 2, 3, 30], maxseqs=2)), random=True)
+    A('pcDelta_grouped_bins0', ['distance.pcDelta_grouped'], lambda: (prs.pcDelta_grouped, [str_df(), 'group', 'TRBV'], dict(bins=0)))
+    A('pcDelta_grouped_nobins', ['distance.pcDelta_grouped'], lambda: (prs.pcDelta_grouped, [tcr_df(), 'donor', 'CDR3B'], {}))
+    A('pcDelta_grouped_cross_square', ['distance.pcDelta_grouped_cross'], lambda: (prs.pcDelta_grouped_cross, [tcr_df(), 'group', 'CDR3B'], dict(bins=0)))
+    A('pcDelta_grouped_cross_square_frames', ['distance.pcDelta_grouped_cross'], lambda: (prs.pcDelta_grouped_cross, [na_df(), ['group'], ['TRBV', 'TRAV']], dict(bins=0, condensed=False)))
+    A('pcDelta_grouped_cross_maxseqs', ['distance.pcDelta_grouped_cross'], lambda: (prs.pcDelta_grouped_cross, [str_df(), 'group', 'CDR3B'], dict(bins=[0, 1, 2, 3, 30], condensed=True, maxseqs=2, normalize=False)), random=True)
+    A('pcDelta_grouped_cross_vector_square_raises', ['distance.pcDelta_grouped_cross'], lambda: (prs.pcDelta_grouped_cross, [tcr_df(), 'group', 'CDR3B'], dict(bins=[0, 1, 2, 3, 30])))
+    A('lev_neighbors_str_alphabet', ['distance.levenshtein_neighbors'], lambda: (lambda x, a: list(prs.levenshtein_neighbors(x, alphabet=a)), ['CAAF', 'AC'], {}))
+    A('ham_neighbors_alphabet_positions', ['distance.hamming_neighbors'], lambda: (lambda x, a, p: list(prs.hamming_neighbors(x, a, p)), ['CAAF', ['A', 'C', 'D'], (0, 3)], {}))
+    A('ham_neighbors_positions_arr', ['distance.hamming_neighbors'], lambda: (lambda x, p: list(prs.hamming_neighbors(x, variable_positions=p)), ['CAAF', np.array([2, 0])], {}))
+    A('next_nearest_1', ['distance.next_nearest_neighbors'], lambda: (prs.next_nearest_neighbors, ['CAF', prs.levenshtein_neighbors], dict(maxdistance=1)))
+    A('next_nearest_3', ['distance.next_nearest_neighbors'], lambda: (lambda x: len(prs.next_nearest_neighbors(x, prs.hamming_neighbors, 3)), ['CAF'], {}))
+    for cn, conv in [('tuple', tuple), ('arr', np.array), ('stridx', stridx), ('frozenset', frozenset), ('dict', lambda s: dict.fromkeys(s, 0))]:
+        A('find_pairs_' + cn, ['distance.find_neighbor_pairs'], lambda conv=conv: (prs.find_neighbor_pairs, [conv(list(dict.fromkeys(SHORT)))], {}))
+    A('find_pairs_set_lev', ['distance.find_neighbor_pairs'], lambda: (prs.find_neighbor_pairs, [set(SEQS)], dict(neighborhood=prs.levenshtein_neighbors)))
+    for cn, conv in [('tuple', tuple), ('arr', np.array), ('stridx', stridx)]:
+        A('find_pairs_index_' + cn, ['distance.find_neighbor_pairs_index'], lambda conv=conv: (prs.find_neighbor_pairs_index, [conv(list(dict.fromkeys(SEQS)))], dict(neighborhood=prs.levenshtein_neighbors)))
+    A('neighbor_numbers_arr_frozen', ['distance.calculate_neighbor_numbers'], lambda: (prs.calculate_neighbor_numbers, [np.array(SEQS)], dict(reference=frozenset(SEQS3))))
+    A('neighbor_numbers_stridx_hamming', ['distance.calculate_neighbor_numbers'], lambda: (prs.calculate_neighbor_numbers, [stridx(SEQS)], dict(neighborhood=prs.hamming_neighbors)))
+    A('neighbor_numbers_same_set', ['distance.calculate_neighbor_numbers'], lambda: (lambda s: prs.calculate_neighbor_numbers(s, s), [set(SEQS)], {}))
+    A('neighbor_numbers_list_reference_raises', ['distance.calculate_neighbor_numbers'], lambda: (prs.calculate_neighbor_numbers, [list(SEQS)], dict(reference=list(SEQS2))))
+    A('isdist1_list_hamming', ['distance.isdist1'], lambda: (lambda x, r: [prs.isdist1(y, r, neighborhood=prs.hamming_neighbors) for y in x], [['CASSLGQAYEQYW', 'CASSLGQAYEQF', 'WWW'], list(SEQS)], {}))
+    A('isdist1_dict', ['distance.isdist1'], lambda: (prs.isdist1, ['CASSQETQYW', dict.fromkeys(SEQS, 1)], {}))
+    A('nndist_hamming_all', ['distance.nndist_hamming'], lambda: (lambda r: [prs.nndist_hamming(s, r, maxdist=m) for s in ('AAC', 'AAF', 'AFF', 'FFF', 'WWW') for m in (1, 2, 3, 4)], [{'AAC', 'ADD', 'CCC'}], {}))
+    A('nndist_hamming_frozenset_list', ['distance.nndist_hamming'], lambda: (lambda a, b: [prs.nndist_hamming('AFF', a), prs.nndist_hamming('AFF', b, 3)], [frozenset(SHORT), list(SHORT)], {}))
+    A('hierarchical_tuple', ['distance.hierarchical_clustering'], lambda: (prs.hierarchical_clustering, [(shifted(ALPHA), list(SEQS))], {}))
+    A('hierarchical_metric', ['distance.hierarchical_clustering'], lambda: (prs.hierarchical_clustering, [np.array(SEQS)], dict(metric=prs.metric.WeightedLevenshtein(1, 1, 2))))
+    A('hierarchical_frame_metric_kws', ['distance.hierarchical_clustering'], lambda: (prs.hierarchical_clustering, [str_df()], dict(metric=tm.AlphaCdrLevenshtein(cdr2_weight=2), linkage_kws=dict(method='complete'), cluster_kws=dict(t=3, criterion='maxclust'))))
+    A('hierarchical_1001', ['distance.hierarchical_clustering'], lambda: (prs.hierarchical_clustering, [big_seqs()], {}))
+    A('hierarchical_1001_kws', ['distance.hierarchical_clustering'], lambda: (prs.hierarchical_clustering, [np.array(big_seqs())], dict(linkage_kws=dict(method='average', optimal_ordering=False), cluster_kws=dict(t=2, criterion='distance'))))
+    A('hierarchical_long', ['distance.hierarchical_clustering'], lambda: (prs.hierarchical_clustering, [list(LONG)], {}))
+    A('default_metric_kinds', ['distance.get_default_metric_for_input_data'], lambda: (lambda *xs: [type(prs.get_default_metric_for_input_data(x)).__name__ for x in xs], [tcr_df(), tcr_df()[['CDR3A']], tcr_df()[['TRBV']], list(SEQS), None], {}))
+
+    # ---- metric classes: containers, the lambda scorer, frames with string index / missing V genes
+    A('lev_cdist_containers', ['metric.levenshtein.Levenshtein.calc_cdist_matrix'], lambda: (lambda a, b, c, d: (lambda m: [m.calc_cdist_matrix(a, b), m.calc_cdist_matrix(c, d)])(prs.metric.Levenshtein()), [tuple(SEQS), stridx(SEQS2), objarr(SEQS3), shifted(SEQS)], {}))
+    A('lev_pdist_containers', ['metric.levenshtein.Levenshtein.calc_pdist_vector'], lambda: (lambda a, b, c: (lambda m: [m.calc_pdist_vector(a), m.calc_pdist_vector(b), m.calc_pdist_vector(c)])(prs.metric.Levenshtein()), [tuple(SEQS), np.array(SEQS2), objarr(LONG)], {}))
+    A('wlev_pdist_containers', ['metric.levenshtein.WeightedLevenshtein.calc_pdist_vector'], lambda: (lambda a, b: (lambda m: [m.calc_pdist_vector(a), m.calc_cdist_matrix(b, a)])(prs.metric.WeightedLevenshtein(deletion_weight=3)), [stridx(SEQS), np.array(SEQS2)], {}))
+    A('lev_1001', ['metric.levenshtein.Levenshtein.calc_pdist_vector'], lambda: (lambda a: prs.metric.Levenshtein().calc_pdist_vector(a).sum(), [np.array(big_seqs())], {}))
+    A('acdrlev_pdist', ['metric.tcr_metric.tcr_levenshtein.AlphaCdrLevenshtein.__init__', 'metric.tcr_metric.tcr_levenshtein.TcrLevenshtein.calc_pdist_vector'], lambda: (lambda d: tm.AlphaCdrLevenshtein(2, 1, 1, cdr1_weight=3).calc_pdist_vector(d), [str_df()], {}))
+    A('cdr3lev_weights_cdist', ['metric.tcr_metric.tcr_levenshtein.Cdr3Levenshtein.__init__', 'metric.tcr_metric.tcr_levenshtein.TcrLevenshtein.calc_cdist_matrix'], lambda: (lambda a, b: tm.Cdr3Levenshtein(1, 2, 3, alpha_weight=2, beta_weight=5).calc_cdist_matrix(a, b), [str_df(), tcr_df().iloc[::3]], {}))
+    A('cdrlev_cdist_all_weights', ['metric.tcr_metric.tcr_levenshtein.TcrLevenshtein.__init__', 'metric.tcr_metric.tcr_levenshtein.TcrLevenshtein.calc_cdist_matrix'], lambda: (lambda a, b: tm.CdrLevenshtein(1, 1, 2, 2, 3, 1, 2, 4).calc_cdist_matrix(a, b), [tcr_df().iloc[:5], str_df().iloc[4:]], {}))
+    A('bcdr3lev_pdist_minimal_frame', ['metric.tcr_metric.tcr_levenshtein.BetaCdr3Levenshtein.__init__', 'metric.tcr_metric.tcr_levenshtein.TcrLevenshtein.calc_pdist_vector'], lambda: (lambda d: tm.BetaCdr3Levenshtein().calc_pdist_vector(d), [str_df()[['CDR3B']]], {}))
+    A('standard_format_kinds', ['metric.tcr_metric.tcr_metric.is_in_standard_format'], lambda: (lambda *xs: [tm.tcr_metric.is_in_standard_format(x) for x in xs], [tcr_df()[['group']], list(SEQS), None, str_df()[['TRAV']], raw_df()[['TRBJ', 'Epitope']]], {}))
+
+    # ---- clustering: deterministic community routines, their **kwargs, node containers, the DBSCAN branch
+    A('graph_walktrap_steps', ['clustering.graph_clustering'], lambda: (prs.graph_clustering, [trip(), np.array(SEQS)], dict(clustering='walktrap', steps=3)))
+    A('graph_edge_betweenness_kwargs', ['clustering.graph_clustering'], lambda: (prs.graph_clustering, [np.array(trip()), stridx(SEQS)], dict(clustering='edge_betweenness', directed=False)))
+    A('graph_cc_tuple_nodes', ['clustering.graph_clustering'], lambda: (prs.graph_clustering, [tuple(trip()), tuple(SEQS)], {}))
+    A('graph_cc_asymmetric', ['clustering.graph_clustering'], lambda: (prs.graph_clustering, [prs.kdtree(list(SEQS), max_edits=2, max_returns=1), shifted(SEQS)], {}))
+    A('graph_dbscan', ['clustering.graph_clustering'], lambda: (prs.graph_clustering, [np.array(trip()), list(SEQS)], dict(clustering='DBSCAN')))
+    A('graph_fastgreedy_1001', ['clustering.graph_clustering'], lambda: (prs.graph_clustering, [prs.symdel(big_seqs(), max_edits=1), big_seqs()], dict(clustering='fastgreedy')))
+    A('graph_method_spelling_raises', ['clustering.graph_clustering'], lambda: (prs.graph_clustering, [trip(), list(SEQS)], dict(clustering='CC')))
+    A('graph_kwargs_raises', ['clustering.graph_clustering'], lambda: (prs.graph_clustering, [trip(), list(SEQS)], dict(clustering='fastgreedy', nope=1)))
+
+    # ---- io / util
+    A('standardize_mouse_options', ['io.standardize_dataframe'], lambda: (prs.standardize_dataframe, [raw_df()], dict(species='MusMusculus', tcr_enforce_functional=False, mhc_precision='allele', suppress_warnings=True)))
+    A('standardize_strict_protein', ['io.standardize_dataframe'], lambda: (prs.standardize_dataframe, [raw_df().assign(CDR3A=['CIVRAPGRADMR', 'AVPSGAGSYQLT', None])], dict(strict_cdr3_standardization=True, mhc_precision='protein', tcr_enforce_functional=False, suppress_warnings=True)))
+    A('standardize_warnings_on', ['io.standardize_dataframe'], lambda: (prs.standardize_dataframe, [raw_df()], {}))
+    A('standardize_mapper_only', ['io.standardize_dataframe'], lambda: (prs.standardize_dataframe, [raw_df()], dict(col_mapper=dict(Epitope='epitope', MHCA='mhc_a'), standardize=False)))
+    A('standardize_stridx_beta_only', ['io.standardize_dataframe'], lambda: (prs.standardize_dataframe, [raw_df()[['TRBV', 'CDR3B', 'TRBJ']].set_index(pd.Index(['x', 'y', 'x']))], dict(suppress_warnings=True, tcr_precision='allele')))
+    A('standardize_positional', ['io.standardize_dataframe'], lambda: (prs.standardize_dataframe, [raw_df(), None, True, 'HomoSapiens', False, 'gene', 'gene', False, True], {}))
+    A('standardize_both_raises', ['io.standardize_dataframe'], lambda: (prs.standardize_dataframe, [raw_df()], dict(df_old=raw_df())))
+    A('standardize_species_unknown', ['io.standardize_dataframe'], lambda: (prs.standardize_dataframe, [raw_df()], dict(species='nope', suppress_warnings=True)))
+    A('isvalid_kinds', ['io.isvalidaa', 'io.isvalidcdr3'], lambda: (lambda xs: [[prs.isvalidaa(x), prs.isvalidcdr3(x)] for x in xs], [[np.str_('CASSF'), 'casf', b'CAF', ('C', 'F'), {'C': 1}, float('nan'), pd.NA, np.array(['C', 'F']), 'C' * 300 + 'F']], {}))
+    A('multimerge_on_list_suffix_inner', ['io.multimerge'], lambda: (prs.multimerge, [[tcr_df()[['CDR3B', 'TRBV', 'clone_count']].drop_duplicates(['CDR3B', 'TRBV']), str_df()[['CDR3B', 'TRBV', 'group']].drop_duplicates(['CDR3B', 'TRBV'])], ['CDR3B', 'TRBV']], dict(suffixes=('l', 'r'), how='inner')))
+    A('multimerge_three_suffix', ['io.multimerge'], lambda: (prs.multimerge, [(tcr_df()[['clone_count']], str_df()[['clone_count']].reset_index(drop=True), tcr_df()[['clone_count']].iloc[::2]), 'index'], dict(suffixes=['a', 'b', 'c'], sort=True)))
+    A('multimerge_column_left_kwargs', ['io.multimerge'], lambda: (prs.multimerge, [[tcr_df()[['CDR3B', 'clone_count']].drop_duplicates('CDR3B'), tcr_df()[['CDR3B', 'group']].drop_duplicates('CDR3B').iloc[2:], tcr_df()[['CDR3B', 'donor']].drop_duplicates('CDR3B').iloc[:5]], 'CDR3B'], dict(how='left', sort=True, indicator=False)))
+    A('multimerge_stridx_index', ['io.multimerge'], lambda: (prs.multimerge, [[str_df()[['clone_count']], str_df()[['group']].iloc[::-1], na_df()[['donor']]], 'index'], {}))
+    A('multimerge_one_frame', ['io.multimerge'], lambda: (prs.multimerge, [[tcr_df()[['CDR3B', 'group']]], 'CDR3B'], dict(suffixes=['only'])))
+    A('seqs_to_regex_containers', ['util.seqs_to_regex'], lambda: (lambda a, b, c: [util.seqs_to_regex(x, align=False) for x in (a, b, c)], [np.array(['CASF', 'CATF', 'CASW']), stridx(['CASF', 'CATF', 'CA-W']), ('CASF', 'CASF')], {}))
+    A('seqs_to_consensus_containers', ['util.seqs_to_consensus'], lambda: (lambda a, b, c: [util.seqs_to_consensus(x, align=False) for x in (a, b, c)], [np.array(['CASF', 'CATF', 'CASW']), stridx(['CASF', 'C--F', 'C--W']), ('CASF',)], {}))
+    A('align_seqs_debug_raises', ['util.align_seqs'], lambda: (util.align_seqs, [np.array(['CASF', 'CATFF'])], dict(debug=True)))
+    A('ensure_numpy_kinds', ['util.ensure_numpy'], lambda: (lambda *xs: [util.ensure_numpy(x) for x in xs], [tuple(SEQS), stridx(COUNTS_F), objarr(SEQS2), np.array(COUNTS), range(4)], {}))
+    A('convert_tuple_kinds', ['util.convert_tuple_to_dataframe_if_necessary'], lambda: (lambda *xs: [util.convert_tuple_to_dataframe_if_necessary(x) for x in xs], [(shifted(ALPHA), stridx(SEQS)), (np.array(ALPHA), tuple(SEQS)), tuple(SEQS), (list(ALPHA), list(SEQS), list(SEQS)), None, [list(ALPHA), list(SEQS)]], {}))
+
+    # ---- plotting: axes handed in (built inside the template: drawing on them is the purpose), transforms, **kwargs, arrays
+    def with_ax(f, *args, **kw):
+        def call(*a):
+            fig, ax = plt.subplots(figsize=(3, 2))
+            return f(*a, ax=ax, **kw)
+        return call, list(args), {}
+    A('rankfrequency_int_arr_counts', ['plotting.rankfrequency'], lambda: (pp.rankfrequency, [np.array([3, 1, 7, 2, 5, 2])], dict(normalize_x=False)), fig=True)
+    A('rankfrequency_uint_arr_both', ['plotting.rankfrequency'], lambda: (pp.rankfrequency, [np.array([3, 1, 7, 2, 5, 2], dtype=np.uint16)], dict(normalize_x=False, normalize_y=True, log_x=False, log_y=False)), fig=True)
+    A('rankfrequency_nan_arr', ['plotting.rankfrequency'], lambda: (pp.rankfrequency, [np.array([3.0, np.nan, 2.0, 7.0, np.nan, 5.0])], {}), fig=True)
+    A('rankfrequency_nan_series', ['plotting.rankfrequency'], lambda: (pp.rankfrequency, [stridx([3.0, np.nan, 2.0, 7.0, 5.0])], dict(normalize_x=False, scaley=0.5)), fig=True)
+    A('rankfrequency_tuple_kwargs', ['plotting.rankfrequency'], lambda: (pp.rankfrequency, [(3, 1, 2)], dict(normalize_y=True, where='post')), fig=True)
+    A('rankfrequency_ax_transforms', ['plotting.rankfrequency'], lambda: with_ax(pp.rankfrequency, np.array([3, 1, 2, 7, 5]), normalize_x=False, transform_x=np.sqrt, transform_y=lambda y: y + 1, log_y=False, scaley=2.0, lw=0.5), fig=True)
+    A('density_scatter_arrays', ['plotting.density_scatter'], lambda: (pp.density_scatter, [np.linspace(0, 1, 30)[::-1].copy(), stridx(np.linspace(0, 1, 30) ** 2)], dict(bins=5)), fig=True)
+    A('density_scatter_nosort_trans_kwargs', ['plotting.density_scatter'], lambda: (pp.density_scatter, [np.linspace(0, 1, 30), shifted(np.linspace(1, 0, 30) ** 2)], dict(bins=(4, 6), sort=False, trans=np.log1p, s=3, cmap='magma')), fig=True)
+    A('density_scatter_ax_cbar', ['plotting.density_scatter'], lambda: with_ax(pp.density_scatter, np.linspace(0, 1, 30)[::-1].copy(), np.linspace(0, 1, 30) ** 2, bins=4, cbar=True), fig=True)
+    A('density_scatter_discrete_lists_nosort', ['plotting.density_scatter'], lambda: (pp.density_scatter, [[3, 1, 1, 2, 3, 3], [1, 1, 1, 2, 1, 1]], dict(discrete=True, sort=False, marker='s')), fig=True)
+    A('density_scatter_discrete_ax', ['plotting.density_scatter'], lambda: with_ax(pp.density_scatter, stridx([3, 1, 1, 2, 3, 3]), np.array([1, 1, 1, 2, 1, 1]), discrete=True), fig=True)
+    A('colors_hls_int_series', ['plotting.labels_to_colors_hls'], lambda: (lambda a, b: [pp.labels_to_colors_hls(a, min_count=2), pp.labels_to_colors_hls(b, dict(l=0.4, s=0.5, h=0.2))], [np.array([3, 3, 1, 2, 2, 2]), stridx(list('aabbbcd'))], {}), random=True)
+    A('colors_hls_tuple_positional', ['plotting.labels_to_colors_hls'], lambda: (pp.labels_to_colors_hls, [tuple('aabbbcd'), dict(l=0.6), 3], {}), random=True)
+    A('colors_tableau_min_count', ['plotting.labels_to_colors_tableau'], lambda: (lambda a, b: [pp.labels_to_colors_tableau(a, min_count=2), pp.labels_to_colors_tableau(b, 1)], [list('aabbbcd'), np.array([3, 3, 1, 2, 2, 2])], {}), random=True)
+    A('colors_tableau_many', ['plotting.labels_to_colors_tableau'], lambda: (pp.labels_to_colors_tableau, [['l%02d' % (i % 23) for i in range(50)]], {}), random=True)
+    A('seqlogos_series_ax_kwargs', ['plotting.seqlogos'], lambda: with_ax(pp.seqlogos, stridx(['CASF', 'CATF', 'CASW']), color_scheme='hydrophobicity', baseline_width=0.5), fig=True)
+    A('seqlogos_arr', ['plotting.seqlogos'], lambda: (pp.seqlogos, [np.array(['CASF', 'CATF', 'CASW', 'CASF'])], dict(show_spines=True)), fig=True)
+    A('seqlogos_ragged_raises', ['plotting.seqlogos'], lambda: (pp.seqlogos, [['CASF', 'CATFF']], {}), fig=True)
+
+    def vj_axes(d):
+        fig, axes = plt.subplots(ncols=3, figsize=(4, 1))
+        return [canon(a) for a in pp.seqlogos_vj(d, 'cdr3', 'v', 'j', axes=axes, color_scheme='charge')]
+    A('seqlogos_vj_axes_kwargs', ['plotting.seqlogos_vj'], lambda: (vj_axes, [vj_df().set_index(pd.Index(list('xyz')))], {}), fig=True)
+
+    def label_list(n):
+        fig, axes = plt.subplots(ncols=n)
+        pp.label_axes(list(axes), labels='ab', labelstyle='(%s)', xy=(0.1, 0.9), xycoords='axes fraction', fontsize=7, va='bottom')
+        return [[t.get_text(), t.get_fontsize(), t.get_va(), list(t.xy)] for a in axes for t in a.texts]
+    A('label_axes_list_kwargs', ['plotting.label_axes'], lambda: (label_list, [3], {}), fig=True)
+    A('label_axes_default_labels', ['plotting.label_axes'], lambda: (lambda n: (lambda fig: (pp.label_axes(fig), [a.texts[0].get_text() for a in fig.axes])[1])(plt.subplots(ncols=n)[0]), [2], {}), fig=True)
+    A('label_axes_none_raises', ['plotting.label_axes'], lambda: (lambda n: pp.label_axes(plt.subplots(ncols=n)[0], labels=None), [2], {}), fig=True)
+
+    def handler(horizontal):
+        fig, ax = plt.subplots(figsize=(3, 2))
+        l1, = ax.plot([0, 1], [0, 1], 'o')
+        l2, = ax.plot([0, 1], [1, 0], 's')
+        l3, = ax.plot([0, 1], [1, 1], '-')
+        leg = ax.legend([(l1, l2), (l1, l2, l3)], ['two', 'three'], handler_map={tuple: pp.HandlerTupleOffset(horizontal=horizontal)})
+        fig.canvas.draw()
+        arts = pp.HandlerTupleOffset(horizontal=horizontal, pad=0.3).create_artists(leg, (l1, l3, l2), 1.0, 2.0, 20.0, 7.0, 10.0, ax.transAxes)
+        return [np.asarray(a.get_xydata()) for a in arts] + [[t.get_text() for t in leg.get_texts()]]
+    A('handler_tuple_offset_h', ['plotting.HandlerTupleOffset.__init__', 'plotting.HandlerTupleOffset.create_artists'], lambda: (handler, [True], {}), fig=True)
+    A('handler_tuple_offset_v', ['plotting.HandlerTupleOffset.__init__', 'plotting.HandlerTupleOffset.create_artists'], lambda: (handler, [False], {}), fig=True)
+    cgs = ['plotting.clustermap_split', 'plotting.ClusterGridSplit.__init__', 'plotting.ClusterGridSplit.plot_matrix']
+    A('clustermap_split_options', cgs,
+      lambda: (pp.clustermap_split, [pd.DataFrame(np.arange(16.0).reshape(4, 4)), pd.DataFrame(np.arange(16.0).reshape(4, 4).T)],
+               dict(figsize=(3, 3), row_cluster=False, col_cluster=False, annot=True, xticklabels=list('abcd'), yticklabels=list('wxyz'), mask=np.eye(4, dtype=bool),
+                    row_colors=['r', 'g', 'b', 'k'], tree_kws=dict(linewidths=0.5))), fig=True)
+    A('clustermap_split_linkage_options', cgs,
+      lambda: (pp.clustermap_split, [pd.DataFrame(np.arange(9.0).reshape(3, 3)), pd.DataFrame(np.arange(9.0).reshape(3, 3).T)],
+               dict(figsize=(3, 3), method='single', metric='cityblock', annot=True, cbar_kws=dict(orientation='horizontal'), vmin=0, vmax=10, col_colors=['r', 'g', 'b'])), fig=True)
+    A('clustermap_split_labelled_raises', cgs,      # labelled frames: seaborn aligns the (labelled) mask with the unlabelled merged matrix and fails, late
+      lambda: (pp.clustermap_split, [pd.DataFrame(np.arange(9.0).reshape(3, 3), index=list('xyz'), columns=list('xyz')), pd.DataFrame(np.arange(9.0).reshape(3, 3).T, index=list('xyz'), columns=list('xyz'))],
+               dict(figsize=(3, 3))), fig=True)
+    A('clustermap_split_nocbar_raises', cgs,
+      lambda: (pp.clustermap_split, [pd.DataFrame(np.arange(16.0).reshape(4, 4)), pd.DataFrame(np.arange(16.0).reshape(4, 4).T)], dict(figsize=(3, 3), cbar_pos=None)), fig=True)
+    A('similarity_clustermap_meta_dict', ['plotting.similarity_clustermap'], lambda: (pp.similarity_clustermap, [str_df()], dict(alpha_column='CDR3A', beta_column=None, meta_columns=dict(group='Group', donor='Donor'),
+                                                                                          meta_to_colors=[pp.labels_to_colors_hls, pp.labels_to_colors_tableau, pp.labels_to_colors_hls], figsize=(3, 3), cbar_pos=(0.3, 0.95, 0.4, 0.02))), random=True, fig=True)
+    A('similarity_clustermap_bounds_pair', ['plotting.similarity_clustermap'], lambda: (pp.similarity_clustermap, [tcr_df()], dict(alpha_column='CDR3A', beta_column='CDR3B', bounds=np.arange(0, 4), meta_columns=['donor'])), random=True, fig=True)
+    A('similarity_clustermap_norm_kws', ['plotting.similarity_clustermap'], lambda: (pp.similarity_clustermap, [tcr_df()], dict(alpha_column='CDR3A', beta_column='CDR3B', norm=__import__('matplotlib').colors.Normalize(0, 9), cbar_kws=dict(label='d'),
+                                                                                        linkage_kws=dict(method='complete'), cluster_kws=dict(t=2, criterion='maxclust'), dendrogram_ratio=0.2)), random=True, fig=True)
+
+    # ---- objects that live across calls; containers reused and refilled in place between calls
+    def live(name, entries, steps, builders, random=False):
+        """steps: list of functions of the live objects; builders: name -> constructor.  live: all objects are built once, up
+        front; ref: every step gets the object it uses built for it alone, immediately before the call."""
+        def run_live():
+            objs = {k: b() for k, b in builders.items()}
+            return [st(objs) for st in steps]
+
+        class PerCall(dict):                 # an object is built at the moment a step asks for it, for that step alone
+            def __getitem__(self, k):
+                return builders[k]()
+
+        def run_ref():
+            return [st(PerCall()) for st in steps]
+        L.append(T('au_live_' + name, entries, lambda: (run_live, [], {}), random=random))
+        L.append(T('au_ref_' + name, entries, lambda: (run_ref, [], {}), random=random))
+        L[-2]['same_as'] = 'au_ref_' + name
+    sdb = ['nn.SymdelDB.__init__', 'nn.SymdelDB.lookup']
+    ldb = ['nn.LookupDB.__init__', 'nn.LookupDB.lookup']
+    for k in (1, 2):
+        live('symdeldb_k%d_options' % k, sdb,
+             [lambda o: o['db'].lookup(list(SEQS2)), lambda o: o['db'].lookup(list(SEQS2), custom_distance='hamming'),
+              lambda o: o['db'].lookup(list(SEQS2)), lambda o: o['db'].lookup(list(SEQS3), custom_distance=lev3, max_custom_distance=3),
+              lambda o: o['db'].lookup(list(SEQS3)), lambda o: o['db'].lookup(list(SEQS2), custom_distance='hamming', output_type='ndarray'),
+              lambda o: o['db'].lookup(list(SEQS), custom_distance=lev3, max_custom_distance=6.0), lambda o: o['db'].lookup(list(SEQS))],
+             dict(db=lambda k=k: nn.SymdelDB(list(SEQS), k)))
+    live('lookupdb_options', ldb,
+         [lambda o: o['db'].lookup(list(SEQS2)), lambda o: o['db'].lookup(list(SEQS2), custom_distance='hamming'), lambda o: o['db'].lookup(['CASSQETQYF', 'CASSLGQAYEQF'], max_edits=2),
+          lambda o: o['db'].lookup(list(SEQS2)), lambda o: o['db'].lookup(list(SEQS), pdist_mode=True), lambda o: o['db'].lookup(list(SEQS3), custom_distance=lev3, max_custom_distance=3),
+          lambda o: o['db'].lookup(list(SEQS3)), lambda o: o['db'].lookup(list(SEQS))],
+         dict(db=lambda: nn.LookupDB(list(SEQS))))
+    live('two_databases', sdb + ldb,
+         [lambda o: o['a'].lookup(list(SEQS2)), lambda o: o['c'].lookup(list(SEQS2)), lambda o: o['l'].lookup(list(SEQS2)), lambda o: o['a'].lookup(list(SEQS2)),
+          lambda o: o['c'].lookup(list(SEQS), custom_distance='hamming'), lambda o: o['a'].lookup(list(SEQS), custom_distance='hamming'), lambda o: o['l'].lookup(list(SEQS3), max_edits=1, custom_distance='hamming'),
+          lambda o: o['c'].lookup(list(SEQS2))],
+         dict(a=lambda: nn.SymdelDB(list(SEQS), 1), c=lambda: nn.SymdelDB(np.array(SEQS3), 2), l=lambda: nn.LookupDB(tuple(SEQS3))))
+    def safe(step):                       # a step that is expected to raise: the live object must survive it unchanged
+        def run(o):
+            try:
+                return ['ok', step(o)]
+            except Exception as e:
+                return exc_token(e)
+        return run
+    live('databases_after_raise', sdb + ldb,
+         [lambda o: o['a'].lookup(list(SEQS2)), safe(lambda o: o['a'].lookup(list(SEQS2), custom_distance=Failing(3, lev1), max_custom_distance=5)), lambda o: o['a'].lookup(list(SEQS2)),
+          safe(lambda o: o['a'].lookup([1, 2])), safe(lambda o: o['a'].lookup(list(SEQS2), output_type='nope')), lambda o: o['a'].lookup(list(SEQS3), custom_distance='hamming'),
+          lambda o: o['l'].lookup(list(SEQS2)), safe(lambda o: o['l'].lookup(list(SEQS2), custom_distance=Failing(3, lev1), max_custom_distance=5)), safe(lambda o: o['l'].lookup(['CASXF', 7])),
+          lambda o: o['l'].lookup(list(SEQS2)), lambda o: o['l'].lookup(list(SEQS), pdist_mode=True, custom_distance='hamming')],
+         dict(a=lambda: nn.SymdelDB(list(SEQS), 2), l=lambda: nn.LookupDB(np.array(SEQS))))
+    live('metrics_after_raise', ['metric.tcr_metric.tcr_levenshtein.TcrLevenshtein.calc_pdist_vector', 'metric.levenshtein.Levenshtein.calc_cdist_matrix'],
+         [lambda o: o['m'].calc_pdist_vector(tcr_df()), safe(lambda o: o['m'].calc_pdist_vector(list(SEQS))), safe(lambda o: o['m'].calc_pdist_vector(tcr_df().drop(columns=['TRBV']))),
+          safe(lambda o: o['m'].calc_cdist_matrix(tcr_df(), tcr_df().assign(CDR3B=[1] * 10))), lambda o: o['m'].calc_pdist_vector(tcr_df()),
+          lambda o: o['w'].calc_pdist_vector(list(SEQS)), safe(lambda o: o['w'].calc_cdist_matrix(list(SEQS), [1, 2])), lambda o: o['w'].calc_pdist_vector(list(SEQS))],
+         dict(m=lambda: tm.CdrLevenshtein(1, 2, 1, cdr1_weight=3, beta_weight=2), w=lambda: prs.metric.WeightedLevenshtein(2, 1, 3)))
+    live('tcr_metrics_alive', ['metric.tcr_metric.tcr_levenshtein.TcrLevenshtein.__init__', 'metric.tcr_metric.tcr_levenshtein.TcrLevenshtein.calc_pdist_vector', 'metric.tcr_metric.tcr_levenshtein.TcrLevenshtein.calc_cdist_matrix'],
+         [lambda o: o['m1'].calc_pdist_vector(tcr_df()), lambda o: o['m2'].calc_pdist_vector(tcr_df()), lambda o: o['m3'].calc_pdist_vector(tcr_df()), lambda o: o['m1'].calc_pdist_vector(tcr_df()),
+          lambda o: o['m4'].calc_cdist_matrix(tcr_df(), tcr_df().iloc[:3]), lambda o: o['m2'].calc_cdist_matrix(tcr_df(), tcr_df().iloc[:3]), lambda o: o['m5'].calc_pdist_vector(tcr_df()),
+          lambda o: o['m3'].calc_cdist_matrix(tcr_df().iloc[:4], tcr_df()), lambda o: o['m1'].calc_cdist_matrix(tcr_df().iloc[:4], tcr_df())],
+         dict(m1=lambda: tm.Cdr3Levenshtein(alpha_weight=2, beta_weight=3), m2=lambda: tm.Cdr3Levenshtein(), m3=lambda: tm.CdrLevenshtein(1, 2, 1, cdr1_weight=3, cdr3_weight=2, alpha_weight=2),
+              m4=lambda: tm.BetaCdrLevenshtein(cdr2_weight=5), m5=lambda: tm.AlphaCdr3Levenshtein(2, 2, 1)))
+    live('string_metrics_alive', ['metric.levenshtein.WeightedLevenshtein.__init__', 'metric.levenshtein.WeightedLevenshtein.calc_pdist_vector', 'metric.levenshtein.Levenshtein.calc_cdist_matrix'],
+         [lambda o: o['w'].calc_pdist_vector(list(SEQS)), lambda o: o['l'].calc_pdist_vector(list(SEQS)), lambda o: o['w2'].calc_cdist_matrix(list(SEQS), list(SEQS2)), lambda o: o['w'].calc_cdist_matrix(list(SEQS), list(SEQS2)),
+          lambda o: o['l'].calc_cdist_matrix(list(SEQS2), list(SEQS)), lambda o: prs.pcDelta(list(SEQS), metric=o['w']), lambda o: prs.hierarchical_clustering(list(SEQS), metric=o['w2']), lambda o: o['w'].calc_pdist_vector(list(SEQS2))],
+         dict(w=lambda: prs.metric.WeightedLevenshtein(2, 1, 3), l=lambda: prs.metric.Levenshtein(), w2=lambda: prs.metric.WeightedLevenshtein(substitution_weight=2)))
+    # one container of the caller: several calls with other options, REFILLED IN PLACE in between
+    def refill(o, key, new):
+        obj = o[key]
+        if isinstance(obj, pd.DataFrame):
+            for col in new.columns:
+                obj[col] = new[col].to_numpy()
+        elif isinstance(obj, pd.Series):
+            obj.iloc[:] = list(new)
+        elif isinstance(obj, set):
+            obj.clear()
+            obj.update(new)
+        else:
+            obj[:] = new
+        return None
+    for cn, conv in [('list', list), ('arr', lambda s: np.array(list(s), dtype='<U20')), ('objarr', objarr), ('series', shifted)]:
+        steps = [lambda o: prs.symdel(o['s'], max_edits=1), lambda o: prs.symdel(o['s'], max_edits=2, custom_distance='hamming'), lambda o: prs.kdtree(o['s'], max_edits=2),
+                 lambda o: prs.hash_based(o['s'], max_edits=1), lambda o: prs.nearest_neighbor(o['s'], max_edits=1, seqs2=list(SEQS2)), lambda o: prs.pdist(o['s']), lambda o: prs.pc(o['s']),
+                 lambda o: prs.pcDelta(o['s'], bins=[0, 1, 2, 30]), lambda o: prs.calculate_neighbor_numbers(o['s']), lambda o: prs.metric.Levenshtein().calc_pdist_vector(o['s']),
+                 lambda o: prs.hierarchical_clustering(o['s']), lambda o: prs.stdpc(o['s']), lambda o: prs.jaccard_index(o['s'], list(SEQS2)), lambda o: prs.kdtree(o['s'], max_edits=1, n_cpu=2)]
+        n = len(steps)
+        # v1 for all steps, refill, then v2 for all steps again - the reference builds v1 / v2 containers per step
+        def mk(conv=conv, steps=steps):
+            def run_live():
+                o = dict(s=conv(SEQS))
+                r1 = [st(o) for st in steps]
+                refill(o, 's', list(SEQS_V2))
+                return r1 + [st(o) for st in steps]
+
+            def run_ref():
+                return [st(dict(s=conv(SEQS))) for st in steps] + [st(dict(s=conv(SEQS_V2))) for st in steps]
+            return run_live, run_ref
+        rl, rr = mk()
+        ents = ['nn.symdel', 'nn.kdtree', 'nn.hash_based', 'nn.nearest_neighbor', 'distance.pdist', 'stats.pc', 'distance.pcDelta', 'distance.calculate_neighbor_numbers', 'distance.hierarchical_clustering', 'stats.stdpc']
+        L.append(T('au_live_reuse_seqs_' + cn, ents, lambda rl=rl: (rl, [], {})))
+        L.append(T('au_ref_reuse_seqs_' + cn, ents, lambda rr=rr: (rr, [], {})))
+        L[-2]['same_as'] = 'au_ref_reuse_seqs_' + cn
+    # counts arrays refilled
+    for cn, conv in [('int_arr', np.array), ('float_arr', lambda c: np.array(c, dtype=float)), ('list', list), ('series', lambda c: pd.Series(list(c), dtype=float))]:
+        steps = [lambda o: prs.pc_n(o['c']), lambda o: prs.varpc_n(o['c']), lambda o: prs.stdpc_n(o['c']), lambda o: prs.chao1(o['c']), lambda o: prs.var_chao1(o['c']), lambda o: prs.chao2(o['c'], 4),
+                 lambda o: prs.powerlaw_mle_alpha(o['c'], cmin=1), lambda o: prs.powerlaw_mle_alpha(o['c'], cmin=2.0, method='simple'), lambda o: prs.powerlaw_mle_alpha(o['c'], method='continuitycorrection'),
+                 lambda o: canon(pp.rankfrequency(o['c'], normalize_x=False)), lambda o: canon(pp.rankfrequency(o['c']))]
+        def mk(conv=conv, steps=steps):
+            v2 = COUNTS[::-1][:-1] + [12]
+            def run_live():
+                o = dict(c=conv(COUNTS))
+                r1 = [st(o) for st in steps]
+                refill(o, 'c', v2)
+                return r1 + [st(o) for st in steps]
+
+            def run_ref():
+                return [st(dict(c=conv(COUNTS))) for st in steps] + [st(dict(c=conv(v2))) for st in steps]
+            return run_live, run_ref
+        rl, rr = mk()
+        ents = ['stats.pc_n', 'stats.varpc_n', 'stats.stdpc_n', 'stats.chao1', 'stats.var_chao1', 'stats.chao2', 'stats.powerlaw_mle_alpha', 'plotting.rankfrequency']
+        L.append(T('au_live_reuse_counts_' + cn, ents, lambda rl=rl: (rl, [], {}), fig=True))
+        L.append(T('au_ref_reuse_counts_' + cn, ents, lambda rr=rr: (rr, [], {}), fig=True))
+        L[-2]['same_as'] = 'au_ref_reuse_counts_' + cn
+    # one table of the caller: several calls, cells replaced in place in between
+    def table_v2():
+        d = tcr_df()
+        d['CDR3B'] = SEQS_V2
+        d['CDR3A'] = ALPHA[::-1]
+        d['TRBV'] = TRBV[::-1]
+        d['group'] = ['c', 'a', 'b', 'b', 'a', 'c', 'a', 'b', 'a', 'c']
+        return d
+    tsteps = [lambda o: tm.Cdr3Levenshtein().calc_pdist_vector(o['d']), lambda o: tm.CdrLevenshtein().calc_pdist_vector(o['d']), lambda o: prs.pc_joint(o['d'], ['TRBV', 'group']),
+              lambda o: prs.pc_conditional(o['d'], 'group', 'TRBV'), lambda o: prs.pc_grouped_cross(o['d'], 'group', 'TRBV'), lambda o: prs.renyi2_entropy(o['d'], 'TRBV', by='group'),
+              lambda o: prs.pcDelta(o['d']), lambda o: prs.pcDelta_grouped(o['d'], 'group', 'CDR3B', bins=[0, 1, 2, 30]), lambda o: prs.nearest_neighbor_tcrdist(o['d'], chain='beta', max_edits=2, max_tcrdist=80),
+              lambda o: prs.pc(o['d'][['CDR3A', 'CDR3B']]), lambda o: prs.hierarchical_clustering(o['d']), lambda o: prs.standardize_dataframe(o['d'], suppress_warnings=True),
+              lambda o: prs.stdrenyi2_entropy(o['d'], ['TRBV', 'group'])]
+    def run_live_t():
+        o = dict(d=tcr_df())
+        r1 = [st(o) for st in tsteps]
+        refill(o, 'd', table_v2())
+        return r1 + [st(o) for st in tsteps]
+
+    def run_ref_t():
+        return [st(dict(d=tcr_df())) for st in tsteps] + [st(dict(d=table_v2())) for st in tsteps]
+    ents = ['metric.tcr_metric.tcr_levenshtein.TcrLevenshtein.calc_pdist_vector', 'stats.pc_joint', 'stats.pc_conditional', 'stats.pc_grouped_cross', 'entropy.renyi2_entropy', 'distance.pcDelta',
+            'distance.pcDelta_grouped', 'nn.nearest_neighbor_tcrdist', 'io.standardize_dataframe']
+    L.append(T('au_live_reuse_table', ents, lambda: (run_live_t, [], {})))
+    L.append(T('au_ref_reuse_table', ents, lambda: (run_ref_t, [], {})))
+    L[-2]['same_as'] = 'au_ref_reuse_table'
+    # one set of the caller
+    ssteps = [lambda o: prs.find_neighbor_pairs(o['s']), lambda o: prs.calculate_neighbor_numbers(sorted(o['s']), reference=o['s']), lambda o: prs.jaccard_index(o['s'], set(SEQS2)),
+              lambda o: prs.overlap(o['s'], o['s']), lambda o: prs.overlap_coefficient(set(SEQS3), o['s']), lambda o: prs.isdist1('CASSLGQAYEQYW', o['s']),
+              lambda o: prs.nndist_hamming('CASSLGQAYEQYW', o['s'], 2), lambda o: prs.find_neighbor_pairs(o['s'], prs.levenshtein_neighbors)]
+    def run_live_s():
+        o = dict(s=set(SEQS))
+        r1 = [st(o) for st in ssteps]
+        refill(o, 's', SEQS_V2)
+        return r1 + [st(o) for st in ssteps]
+
+    def run_ref_s():
+        return [st(dict(s=set(SEQS))) for st in ssteps] + [st(dict(s=set(SEQS_V2))) for st in ssteps]
+    ents = ['distance.find_neighbor_pairs', 'distance.calculate_neighbor_numbers', 'stats.jaccard_index', 'stats.overlap', 'stats.overlap_coefficient', 'distance.isdist1', 'distance.nndist_hamming']
+    L.append(T('au_live_reuse_set', ents, lambda: (run_live_s, [], {})))
+    L.append(T('au_ref_reuse_set', ents, lambda: (run_ref_s, [], {})))
+    L[-2]['same_as'] = 'au_ref_reuse_set'
+    # option dictionaries of the caller reused for several calls
+    def run_live_kws():
+        lk, ck, tk, pk = dict(method='single'), dict(t=2, criterion='maxclust'), dict(ntrim=2, ctrim=1), dict(l=0.4, s=0.6)
+        np.random.seed(11)
+        return [prs.hierarchical_clustering(list(SEQS), linkage_kws=lk, cluster_kws=ck), prs.hierarchical_clustering(tcr_df(), linkage_kws=lk, cluster_kws=ck),
+                prs.nearest_neighbor_tcrdist(tcr_df(), max_tcrdist=80, tcrdist_kwargs=tk), prs.nearest_neighbor_tcrdist(tcr_df(), chain='alpha', max_tcrdist=80, tcrdist_kwargs=tk),
+                pp.labels_to_colors_hls(list('aabbc'), pk), pp.labels_to_colors_hls(list('abc'), pk), prs.hierarchical_clustering(list(SEQS3), linkage_kws=lk, cluster_kws=ck)]
+
+    def run_ref_kws():
+        lk, ck, tk, pk = (lambda: dict(method='single')), (lambda: dict(t=2, criterion='maxclust')), (lambda: dict(ntrim=2, ctrim=1)), (lambda: dict(l=0.4, s=0.6))
+        np.random.seed(11)
+        return [prs.hierarchical_clustering(list(SEQS), linkage_kws=lk(), cluster_kws=ck()), prs.hierarchical_clustering(tcr_df(), linkage_kws=lk(), cluster_kws=ck()),
+                prs.nearest_neighbor_tcrdist(tcr_df(), max_tcrdist=80, tcrdist_kwargs=tk()), prs.nearest_neighbor_tcrdist(tcr_df(), chain='alpha', max_tcrdist=80, tcrdist_kwargs=tk()),
+                pp.labels_to_colors_hls(list('aabbc'), pk()), pp.labels_to_colors_hls(list('abc'), pk()), prs.hierarchical_clustering(list(SEQS3), linkage_kws=lk(), cluster_kws=ck())]
+    ents = ['distance.hierarchical_clustering', 'nn.nearest_neighbor_tcrdist', 'plotting.labels_to_colors_hls']
+    L.append(T('au_live_reuse_option_dicts', ents, lambda: (run_live_kws, [], {}), random=True))
+    L.append(T('au_ref_reuse_option_dicts', ents, lambda: (run_ref_kws, [], {}), random=True))
+    L[-2]['same_as'] = 'au_ref_reuse_option_dicts'
+
+    if True:
+        # D23 (known finding, recorded in known_findings.json): igraph's randomised community routines draw from Python's `random`, not from
+        # NumPy's generator - the result is not a function of the NumPy seed and the call leaves Python's generator advanced
+        for cl, kw in [('multilevel', {}), ('leiden', dict(objective_function='modularity')), ('label_propagation', {})]:
+            A('pending_graph_%s_ring7' % cl, ['clustering.graph_clustering'], lambda cl=cl, kw=kw: (prs.graph_clustering, [list(RING7), [str(i) for i in range(7)]], dict(clustering=cl, **kw)), random=True)
+            L[-1]['site_tag'] = ':igraph community routine under Python random'
+    for t in L:
+        t['audit'] = True
+    return L
+
+
 # ------------------------------------------------------------------ snapshots
 def _defaults(prefix, f, snap):
     import inspect
@@ -735,7 +1293,9 @@ def run_call(t, seed):
     with warnings.catch_warnings():
         # both snapshots are taken INSIDE the block: a warnings filter installed by the call is seen before
         # catch_warnings takes it out again
-        warnings.simplefilter('ignore')
+        # (an 'ignore everything' filter of the harness' own, written so that it is NOT the entry that a plain
+        # warnings.filterwarnings('ignore') / simplefilter('ignore') of the library would add: that one must show as a change)
+        warnings.filterwarnings('ignore', message='.*')
         a0, w0 = arg_snapshot(args, kwargs), world()
         t0 = time.time()
         try:
@@ -937,13 +1497,50 @@ def judge_effects(ctx, tab, ts, rec, history, pos):
                           (t['name'], t['entries'][-1], 'raised %s' % rec['result'][1] if rec['result'][0] == 'exc' else 'returned',
                            key[2:], json.dumps(before)[:160], json.dumps(after)[:160], AMBIENT_WHY.get(key[2:].split('[')[0], '')),
                           dict(history=[[t['name'], rec['seed']]], position=0, kind='ambient', key=key),
-                          site='%s[ambient]' % t['entries'][-1])
+                          site='%s[ambient:%s]' % (t['entries'][-1], state))
         elif key not in ok:
             ctx.violation('correspondence', 'call template %s (%s) changed %s, which the generated effect summary does not allow '
                           '(allowed: %s): %s -> %s' % (t['name'], t['entries'], key, sorted(ok), json.dumps(before)[:160], json.dumps(after)[:160]),
                           dict(history=short, position=pos, kind='state', key=key), site='%s[state]' % t['entries'][-1])
         else:
             ctx.count('allowed_state_change:' + key)
+
+
+def audit_family(n):
+    if n.startswith('au_live_') or n.startswith('au_ref_'):
+        return 'objects_living_across_calls'
+    if n.startswith('au_pending_'):
+        return 'pending'
+    for key, fam in [('same_object', 'same_object_twice'), ('same_set', 'same_object_twice'), ('same_frame', 'same_object_twice'), ('1001', 'size_1001'), ('_300', 'size_300'),
+                     ('long', 'sequences_of_300_residues'), ('progress', 'progress_bar'), ('_na', 'missing_cells'), ('kwargs', 'kwargs_pass_through'), ('_ax', 'axes_given'),
+                     ('float_arr', 'float64_ndarray'), ('objarr', 'object_ndarray'), ('stridx', 'string_index'), ('shifted', 'shifted_index'), ('series', 'series'), ('_arr', 'ndarray'),
+                     ('tuple', 'tuple'), ('set', 'set'), ('dict', 'dict'), ('generator', 'generator'), ('ncpu2', 'n_cpu_2_with_second_option'), ('_one', 'size_1'), ('_two', 'size_2')]:
+        if key in n:
+            return fam
+    return 'other_options'
+
+
+def judge_live(ctx, ts, fresh, seeds):
+    """Objects that live across calls: the template that keeps ONE database / metric / container for all its calls (and
+    refills the container in place) must return what the same calls return on objects built for each call alone."""
+    for n in sorted(ts):
+        ref = ts[n].get('same_as')
+        if not ref:
+            continue
+        ctx.count('live_objects_compared_with_per_call_objects')
+        a, b = fresh[n]['result'], fresh[ref]['result']
+        if a != b:
+            step = ''
+            try:
+                xs, ys = a[1][1], b[1][1]
+                k = next(i for i, (x, y) in enumerate(zip(xs, ys)) if x != y)
+                step = ' (first difference at its call #%d of %d, counted from 0)' % (k, len(xs))
+            except Exception:
+                pass
+            ctx.violation('property', 'call template %s (%s) keeps its objects (database / metric / caller\'s container, refilled in place) across '
+                          'its calls and returns something else than the same calls on objects built for each call (%s)%s: %s'
+                          % (n, ts[n]['entries'][:3], ref, step, first_difference(a, b).replace('alone:', 'per-call objects:')),
+                          dict(history=[[n, seeds.get(n)]], position=0, kind='live', same_as=ref), site='%s[live]' % n)
 
 
 AMBIENT_REPORTED = set()
@@ -982,6 +1579,8 @@ def make_histories(ctx, ts, seeds):
     H = []
     # every template immediately repeated, in shuffled chunks of six (length 12)
     order = names[:]
+    if ctx.quick:       # quick tier: half of the audit templates (another half for every seed); defaults / module state are
+        order = [n for n in order if not ts[n].get('audit') or rng.random() < 0.5]      # snapshotted around every call anyway
     rng.shuffle(order)
     for i in range(0, len(order), 6):
         H.append([x for n in order[i:i + 6] for x in (n, n)])
@@ -1019,12 +1618,14 @@ def make_histories(ctx, ts, seeds):
     if boundary and raising:
         order = raising[:]
         rng.shuffle(order)
-        ngrp = 4 if ctx.quick else 8
+        ngrp = 8
         for g in range(ngrp):
             h = []
             for r in order[g::ngrp]:
                 b = boundary[:]
                 rng.shuffle(b)
+                if ctx.quick and ts[r].get('audit'):
+                    b = b[:12]                       # quick tier: a sample of the boundary templates after an audit template
                 h += [r] + b
             if h:
                 after_raise.append([[n, seeds.get(n)] for n in h])
@@ -1032,11 +1633,35 @@ def make_histories(ctx, ts, seeds):
     ctx.extra['after_raise'] = dict(raising_templates=len(raising), boundary_templates=len(boundary), sessions=len(after_raise),
                                     calls=sum(len(h) for h in after_raise))
     # histories are concatenated into sessions, one fresh interpreter each (a session is itself a history)
-    nsess = 12 if ctx.quick else max(12, sum(len(h) for h in H) // 120)
+    nsess = 20 if ctx.quick else max(20, sum(len(h) for h in H) // 120)
     S = [[] for _ in range(nsess)]
     for i, h in enumerate(H[:len(H) - len(after_raise)]):
         S[i % nsess] += h
     S = [x for x in S if x] + after_raise
+    # ---- audit probes: every audit template is followed at once by a PLAIN template of a callable it uses (same entry in
+    # the effect table, ordinary arguments): whatever the unusual option / container / size / live object left behind - a
+    # remembered option, a default, a module-level block - meets the call that is sensitive to it
+    plain = {}
+    for n in names:
+        if not ts[n].get('audit') and not n.endswith('_raises'):
+            for e in ts[n]['entries']:
+                plain.setdefault(e, []).append(n)
+    aud = [n for n in names if ts[n].get('audit') and not n.startswith('au_ref_')]
+    rng.shuffle(aud)
+    nprobe = 6 if ctx.quick else 12
+    pairs = 0
+    for g in range(nprobe):
+        h = []
+        for a in aud[g::nprobe]:
+            cands = sorted({p for e in ts[a]['entries'] for p in plain.get(e, [])})
+            h.append(a)
+            if cands:
+                h.append(rng.choice(cands))
+                pairs += 1
+        if h:
+            H.append([[n, seeds.get(n)] for n in h])
+            S.append(H[-1])
+    ctx.extra['audit_probes'] = dict(audit_templates=len(aud), followed_by_a_plain_call_of_the_same_callable=pairs, sessions=nprobe)
     # ---- shared-data sessions: the same sequences / tables, other arguments
     #  (a) whole-family orders: a random permutation of the family and its reverse put every ordered pair of shared
     #      templates into one interpreter, earlier -> later (state that PERSISTS, e.g. a memo keyed by sequence);
@@ -1069,9 +1694,12 @@ def make_histories(ctx, ts, seeds):
         # session per a; and every (raising template, boundary template) pair in both orders, one session per raising template
         # (the late-raising and boundary templates of round 3 among themselves would double the cost for pairs of cheap calls)
         late = set(t['name'] for t in edge_templates())
-        regular = [n for n in base if n not in late]
+        regular = [n for n in base if n not in late and not ts[n].get('audit')]
         for a in regular:
             S.append([[n, seeds.get(n)] for b in regular for n in (a, b)])
+        audit = [n for n in base if ts[n].get('audit')]
+        for a in audit:                                  # every audit template next to 24 sampled base templates, both orders
+            S.append([[n, seeds.get(n)] for b in rng.sample(regular + audit, 24) for n in (a, b, a)])
         for r in raising:
             S.append([[n, seeds.get(n)] for b in boundary for n in (r, b)])
         ctx.exhaustive = True
@@ -1172,10 +1800,15 @@ def run(ctx):
         if ts[n]['random'] and rngs and not any(rngs):
             ctx.note('template %s is seeded but its summary says it does not draw random numbers' % n)
     ctx.extra['fresh_wall_s'] = round(time.time() - t0, 1)
+    judge_live(ctx, ts, fresh, seeds)
+    for n in names:
+        if ts[n].get('audit'):
+            ctx.count('audit_family:' + audit_family(n))
 
     # ---- histories
     H0, H = make_histories(ctx, ts, seeds)
     t0 = time.time()
+    H.sort(key=len, reverse=True)           # longest sessions first: the pool of interpreters stays busy to the end
     out = spawn_many(H)
     ctx.extra['histories'] = dict(generated=len(H0), lengths='2..12; shared-data family orders and grid walks %d..%d' % (
         min([len(h) for h in H0 if len(h) > 12] or [0]), max(len(h) for h in H0)), sessions=len(H), calls=sum(len(h) for h in H))
@@ -1213,7 +1846,7 @@ def run(ctx):
         ctx.violation('property', '%s call template %s (%s) returns something else after the history %s than alone in a fresh '
                       'interpreter: %s' % (kind, n, ts[n]['entries'][-1], [x[0] for x in small[:-1]],
                                            first_difference(srec['result'], fresh[n]['result'])),
-                      dict(history=small, position=len(small) - 1, kind='result'), site='%s[history]' % ts[n]['entries'][-1])
+                      dict(history=small, position=len(small) - 1, kind='result'), site='%s[history%s]' % (ts[n]['entries'][-1], ts[n].get('site_tag', '')))
         if len(ctx.violations) > 12 or len(seen) >= 6:
             break
     if failing:
@@ -1269,6 +1902,11 @@ def replay(ctx, obj):
         return run(ctx)
     tab = table_rows(ctx)
     ts = templates()
+    if rp.get('kind') == 'live' and rp.get('same_as') in ts:
+        fresh = {n: spawn([[n, h[0][1]]])[0] for n in (h[0][0], rp['same_as'])}
+        ctx.case(sample=dict(history=h), nontrivial_key=('replay', json.dumps(h)))
+        judge_live(ctx, {h[0][0]: ts[h[0][0]]}, fresh, {h[0][0]: h[0][1]})
+        return
     recs = spawn([list(x) for x in h])
     pos = len(recs) - 1
     rec = recs[pos]
@@ -1278,7 +1916,7 @@ def replay(ctx, obj):
     if rec['result'] != alone['result']:
         ctx.violation('property', 'replayed history %s: %s differs from the same call alone: %s' %
                       ([x[0] for x in h], rec['template'], first_difference(rec['result'], alone['result'])),
-                      dict(history=h, position=pos, kind='result'), site='%s[history]' % ts[rec['template']]['entries'][-1])
+                      dict(history=h, position=pos, kind='result'), site='%s[history%s]' % (ts[rec['template']]['entries'][-1], ts[rec['template']].get('site_tag', '')))
 
 
 if __name__ == '__main__' and len(sys.argv) > 1 and sys.argv[1] == 'worker':
